@@ -229,6 +229,13 @@ def check(case, ctx):
             jobs.append(("a.take(t, indexing='label')", lambda: a.take(t, indexing='label', **kw)))
             if nd:
                 jobs.append(("a.take({dim: idx}, indexing='label')", lambda: a.take({d: ix for d, ix in zip(m.dims, idx) if not is_full(ix)}, indexing='label', **kw)))
+                # one mapping object held by the caller and used for several look-ups (and after a look-up that may have failed)
+                held = {d: ix for d, ix in zip(m.dims, idx) if not is_full(ix)}
+                jobs.append(("a.take(sel, indexing='label') with a mapping the caller keeps", lambda: a.take(held, indexing='label', **kw)))
+                jobs.append(("a.take(sel, indexing='label') again with the same mapping object", lambda: a.take(held, indexing='label', **kw)))
+                if by == 'label' and not kw:
+                    jobs.append(("a[sel] with the same mapping object", lambda: a[held]))
+                    jobs.append(("a.loc[sel] with the same mapping object", lambda: a.loc[held]))
                 jobs.append(("a.take({pos: idx}, indexing='label')", lambda: a.take({i: ix for i, ix in enumerate(idx) if not is_full(ix)}, indexing='label', **kw)))
                 # dimensions designated by their position counted from the end
                 jobs.append(("a.take({negative pos: idx}, indexing='label')", lambda: a.take({i - nd: ix for i, ix in enumerate(idx) if not is_full(ix)}, indexing='label', **kw)))
